@@ -164,6 +164,20 @@ def _remove_parens(atom):
     return atom
 
 
+def _is_in_lambda_body(leaf, scope_node):
+    """
+    A lambda is a function scope of its own (only its body, the defaults are
+    evaluated in the enclosing scope), but has no context in the error finder.
+    """
+    node = leaf
+    while node.parent is not None and node is not scope_node:
+        parent = node.parent
+        if parent.type in ('lambdef', 'lambdef_nocond') and node is parent.children[-1]:
+            return True
+        node = parent
+    return False
+
+
 def _skip_parens_bottom_up(node):
     """
     Returns an ancestor node of an expression, skipping all levels of parens
@@ -613,7 +627,8 @@ class _YieldFromCheck(SyntaxRule):
 
     def is_issue(self, leaf):
         return leaf.parent.type == 'yield_arg' \
-            and self._normalizer.context.is_async_funcdef()
+            and self._normalizer.context.is_async_funcdef() \
+            and not _is_in_lambda_body(leaf, self._normalizer.context.node)
 
 
 @ErrorFinder.register_rule(type='name')
@@ -699,21 +714,9 @@ class _ReturnAndYieldChecks(SyntaxRule):
     def get_node(self, leaf):
         return leaf.parent
 
-    def _is_in_lambda_body(self, leaf):
-        # A lambda is a function scope of its own (only its body, the
-        # defaults are evaluated in the enclosing scope).
-        scope_node = self._normalizer.context.node
-        node = leaf
-        while node.parent is not None and node is not scope_node:
-            parent = node.parent
-            if parent.type in ('lambdef', 'lambdef_nocond') and node is parent.children[-1]:
-                return True
-            node = parent
-        return False
-
     def is_issue(self, leaf):
         if self._normalizer.context.node.type != 'funcdef' \
-                and not self._is_in_lambda_body(leaf):
+                and not _is_in_lambda_body(leaf, self._normalizer.context.node):
             self.add_issue(self.get_node(leaf), message="'%s' outside function" % leaf.value)
         elif self._normalizer.context.is_async_funcdef() \
                 and any(self._normalizer.context.node.iter_yield_exprs()):
